@@ -259,6 +259,41 @@ def okGroup (fs : List Feat) (ans : Option (List Group)) : Bool :=
          | [t] => (uidsOf fs g.tag .transcript).contains t
          | _ => false)
 
+/-! ### export_qualifiers(parent_qualifiers) of a feature / transcript / CDS interval (gene/*.py)
+
+  Documented: the interval's own qualifiers are merged with the parent's ("removing redundancy" — a key-wise set
+  union), then the interval's identifiers are added under the BioCantor qualifier keys. -/
+
+inductive IvKind where
+  | feature | transcript | cds
+  deriving DecidableEq, Repr, Inhabited
+
+/-- the BioCantor qualifier keys under which the identifiers of each class are exported, in the order of the
+    attributes (feature: name, id; transcript: id, symbol, type, protein id; CDS: protein id, product) -/
+def exportKeys : IvKind → List Str
+  | .feature => ["feature_name".toList, "feature_id".toList]
+  | .transcript => ["transcript_id".toList, "transcript_name".toList, "transcript_biotype".toList, "protein_id".toList]
+  | .cds => ["protein_id".toList, "product".toList]
+
+/-- a transcript without a type is exported as `unspecified` -/
+def unknownBiotype : Str := "unspecified".toList
+
+def exportAttrs (k : IvKind) (attrs : List (Option Str)) : List (Option Str) :=
+  match k, attrs with
+  | .transcript, a :: b :: none :: rest => a :: b :: some unknownBiotype :: rest
+  | _, l => l
+
+/-- the identifier entries that are exported: attributes that are set and not empty -/
+def idEntries (k : IvKind) (attrs : List (Option Str)) : QDict :=
+  ((exportKeys k).zip (exportAttrs k attrs)).filterMap fun p =>
+    match p.2 with
+    | some v => if v.isEmpty then none else some (p.1, [v])
+    | none => none
+
+/-- result (values reported sorted) = key-wise set union of own qualifiers, parent qualifiers and identifiers -/
+def okExport (k : IvKind) (own : QDict) (parent : Option QDict) (attrs : List (Option Str)) (ans : Option QDict) : Bool :=
+  okMerge own ((match parent with | some p => p | none => []) ++ idEntries k attrs) ans
+
 /-! ### gene biotype of a GenBank locus (GeneFeature.to_gene_model) -/
 
 /-- documented (since 3370634): the most common transcript biotype; ties are broken by name, so the result does not
